@@ -29,7 +29,7 @@ FAMILY_MODULE = {
     "join": "JoinLike", "try_join": "JoinLike",
     "race": "Race", "race_ok": "Race",
     "merge": "Merge", "zip": "Zip", "chain": "Chain", "wait_until": "WaitUntil",
-    "future_group": "Groups", "stream_group": "Groups", "co": "CoStream", "nest": ["Nest", "NestStream", "NestRace", "NestChain", "NestGroup"],
+    "future_group": "Groups", "stream_group": "Groups", "co": "CoStream", "nest": ["Nest", "NestStream", "NestRace", "NestChain", "NestGroup", "NestMG"],
 }
 # modules whose behaviours leave an order to third-party code (FuturesUnordered): replays are checked by TLC trace
 # validation against the L2 spec instead of an event-by-event comparison with the exported behaviour
@@ -42,7 +42,7 @@ MODULE_CFGS = {
                      live_quick="MC_JoinLike_liveq.cfg", live_thorough="MC_JoinLike_live.cfg",
                      mc="MC_JoinLike.tla"),
 }
-for _m in ("Race", "Merge", "Zip", "Chain", "WaitUntil", "Groups", "CoStream", "Nest", "NestStream", "NestRace", "NestChain", "NestGroup"):
+for _m in ("Race", "Merge", "Zip", "Chain", "WaitUntil", "Groups", "CoStream", "Nest", "NestStream", "NestRace", "NestChain", "NestGroup", "NestMG"):
     MODULE_CFGS[_m] = dict(mc_quick="MC_%s_quick.cfg" % _m, mc_thorough="MC_%s_thorough.cfg" % _m,
                            gen_quick="MC_%s_genq.cfg" % _m, gen_thorough="MC_%s_gen.cfg" % _m,
                            live_quick="MC_%s_liveq.cfg" % _m, live_thorough="MC_%s_live.cfg" % _m,
@@ -510,6 +510,7 @@ def run_for_property(prop, tier, seed, plan, env):
             fams.add("nest_race_join")
             fams.add("nest_chain_merge")
             fams.add("nest_group_join")
+            fams.add("nest_merge_groups")
         by_build = {}
         pred = {}
         for i, ex in enumerate(exported):
